@@ -71,6 +71,11 @@ func child(args []string) int {
 			r.FlushHits()
 		}
 	}
+	if shard == 1%n {
+		r.Journal(map[string]any{"first_items": true})
+		runFirstItems(r, full.N(40, 200))
+		r.FlushHits()
+	}
 	if shard == 0 {
 		r.Journal(map[string]any{"fullstack": true})
 		runFullStack(r)
